@@ -501,6 +501,12 @@ def compare_batch(exe, drv, cases, tag, agg, do_fiber=True):
                         mism.append(dict(case=case, mode=m, line=d[0], observed=d[1], expected=d[2],
                                          context_real=cr[max(0, d[0] - 6):d[0] + 3], context_model=cm[max(0, d[0] - 6):d[0] + 3],
                                          trigger_ties=ties))
+    for m in modes:
+        f = WORK / f"{tag}_{m}_real.txt"
+        if f.exists() and not mism and not oviol:
+            f.unlink()
+    if cf.exists() and not mism and not oviol:
+        cf.unlink()
     return mism, oviol, oknown, errors
 
 
@@ -601,17 +607,27 @@ def main():
     mismatches += m; oracle_viol += ov; oracle_known += ok; errors += er
 
     # ---------------- generated cases (tie)
-    ncases = 400 if tiername == "quick" else 40000
-    nshards = 4 if tiername == "quick" else 16
+    ncases = 400 if tiername == "quick" else 120000
+    per_shard = 100 if tiername == "quick" else 2000
+    workers = 4 if tiername == "quick" else 16
     rng = random.Random(seed * 7919 + 19)
-    shards = [[] for _ in range(nshards)]
-    for i in range(ncases):
-        shards[i % nshards].append(gen_case(rng, f"g{i}"))
-    with ThreadPoolExecutor(max_workers=nshards) as ex:
-        futs = [ex.submit(compare_batch, exe, drv, sh, f"{tiername}{i}", agg) for i, sh in enumerate(shards)]
-        for fu in futs:
-            m, ov, ok, er = fu.result()
-            mismatches += m; oracle_viol += ov; oracle_known += ok; errors += er
+    nshards = (ncases + per_shard - 1) // per_shard
+
+    def shard_job(k):
+        # cases are generated inside the job (one PRNG per shard, derived from the seed) to keep memory flat
+        r = random.Random(seed * 7919 + 19 + 1000003 * k)
+        sh = [gen_case(r, f"g{k}_{i}") for i in range(min(per_shard, ncases - k * per_shard))]
+        a = new_agg()      # per shard, merged below (no shared counters between threads)
+        return compare_batch(exe, drv, sh, f"{tiername}{k % (2 * workers)}_{k}", a) + (a,)
+
+    with ThreadPoolExecutor(max_workers=workers) as ex:
+        for (m, ov, ok, er, a) in ex.map(shard_job, range(nshards)):
+            mismatches += m[:20]; oracle_viol += ov[:20]; oracle_known += ok[:20]; errors += er[:20]
+            agg["known_total"] = agg.get("known_total", 0) + len(ok)
+            for k_ in ("runs", "lines", "compared_lines", "ties", "tie_search_runs"):
+                agg[k_] += a[k_]
+            agg["oracle"].update(a["oracle"]); agg["classes"].update(a["classes"]); agg["hash"] |= a["hash"]
+            agg["samples"] = (agg["samples"] + a["samples"])[:3]
 
     guard = source_guard()
 
@@ -728,7 +744,7 @@ def main():
     cov["oracle_rule_hits"] = dict(sorted(agg["oracle"].items()))
     cov["trigger_tie_bits_consumed_by_model"] = agg["ties"]
     cov["tie_search_model_runs"] = agg["tie_search_runs"]
-    cov["known_finding_occurrences"] = len(oracle_known)
+    cov["known_finding_occurrences"] = agg.get("known_total", 0) + len([k for k in oracle_known if k["case"][0].split()[1].startswith(("fifo_cross", "cross_clock"))])
     cov["source_guard"] = guard or "Event::operator< chain and enum orders match the transcription"
     cov["search_mode"] = search_info
     cov["thread_sanitizer"] = tsan
